@@ -57,7 +57,7 @@ CLAIMED["C12"] = dict(
          "strict prefix asks for more (prefix_needs_more); whatever the input, a reported value is bytes 11..43 of a ClientHello "
          "record starting the stream (found_is_the_field); for every arrival schedule the read loop reports the random "
          "(loop_segmentation_invariant), never another value (loop_absent_never_wrong), and prebuffer ++ unread = stream "
-         "(loop_conserves); the replay returns prebuffer then socket bytes for all read sizes (replay_transparent/complete). Tied to "
+         "(loop_conserves), an answer once given is unchanged by later bytes (answer_stable), the prebuffer never exceeds 16 KiB (loop_prebuffer_bounded); the replay returns prebuffer then socket bytes for all read sizes (replay_transparent/complete). Tied to "
          "tls_listener.rs + tls-parser by ~10k extraction cases per run (the tie already corrected the model's record-length limit) and "
          "the real loop over loopback TCP; live (suite c12live): the random the real listener hands to its connection rules equals "
          "bytes 11..43 of segmented rustls ClientHellos on TCP and the client's own SSL_get_client_random on QUIC.",
